@@ -65,6 +65,7 @@ M = [
      "        return x.abs().max().clamp_min(eps)\n    else:\n        return max(x_.abs().max() for x_ in x).clamp_min(eps)"),
     ("m14d", "C14", "break", BS, "                        curr_t, curr_y, curr_extra = next_t, next_y, next_extra", "                        curr_t, curr_y, curr_extra = next_t, (next_y_full if error_estimate < 1e-3 else next_y), next_extra"),
     ("m14e", "C14", "break", BS, "                    midpoint_t = 0.5 * (curr_t + next_t)", "                    midpoint_t = curr_t + 0.5 * step_size"),
+    ("m14f", "C14", "break", BS, "                    if curr_t < midpoint_t < next_t:", "                    if True:  # revert of the D7 fix"),
     # benign: property-preserving edits must stay green on every Brownian check
     ("b01", "C05", "benign", BI, "class _LRUDict(dict):\n    def __init__(self, max_size):\n        super().__init__()\n        self._max_size = max_size\n        self._keys = []\n\n    def __setitem__(self, key, value):\n        if key in self:\n            self._keys.remove(key)\n        elif len(self) >= self._max_size:\n            del self[self._keys.pop(0)]\n        super().__setitem__(key, value)\n        self._keys.append(key)",
      "import collections\n\n\nclass _LRUDict(collections.OrderedDict):\n    def __init__(self, max_size):\n        super().__init__()\n        self._max_size = max_size\n\n    def __setitem__(self, key, value):\n        if key in self:\n            self.move_to_end(key)\n        elif len(self) >= self._max_size:\n            self.popitem(last=False)\n        super().__setitem__(key, value)"),
